@@ -22,6 +22,9 @@ CLAIMED = {
  "C08": ("model_checking", "CrossHair/z3 symbolic execution of the real expand_run_space/_expand_entries against a reference, with list lengths, modes at three levels, select/rename choices and max_runs symbolic; counting itertools.product for the 'without materialising' clause",
          "Bounded symbolic differential check of run-space expansion: run list and order, key union, meta counts, every documented rejection (unequal lengths, duplicates within/across blocks/after rename, missing selected column) and the max-runs error iff size > max_runs with the true size, for all list contents and lengths within the bound; the work done before a max-runs rejection is bounded by a linear budget through a counting product.",
          "Trusted: CrossHair/z3 models; external sources enter as symbolic columns through a stubbed _load_source_file (file parsers outside). Open known finding: in-block product materialised before the cap.", "4 C08"),
+ "C09": ("model_checking", "CrossHair/z3 symbolic execution of the real cli._run launch loop (in-process, in-memory trace driver) and of the run-space identity/launch code under the injective-hash model",
+         "Bounded symbolic check: inspect and trace spec ids are compared as pre-images for blocks with symbolic values and optional fields present/absent; spec id invariance under key order and sensitivity to 6 plan mutations; idempotency-key launch ids reproducible, basis-dependent and attempt-preserving; inputs id vs symbolic file digests; and per (run count 1..3, launch-id option, attempt 1..3) the real CLI launch is run with symbolic context values and a symbolic failing run: bracket records, counts, per-run foreign keys/index/context, plan order, nothing after a failure, and run i's component log and SER content equal a standalone run on run i's context.",
+         "Trusted: injective-hash assumptions; CLI stubs (_load_yaml, trace driver builder, --context value table, plan printing, repr of logged values); launches > 3 runs and JSONL file/directory modes outside.", "4 C09"),
  "C11": ("model_checking", "CrossHair/z3 symbolic execution of the real _SafeVisitor: one local lemma per AST node class (structural induction) + symbolic compile() sequences",
          "Bounded symbolic check: for every node class of the interpreter's expression grammar the solver explores all paths of the real visitor over symbolic child counts (0..2), optional-field flags and identifier strings (len<=8) and shows that a normal return implies whitelist membership, declared names, listed call targets and that every child position was visited; by induction over the tree this covers expressions of any depth. compile() is checked as a unit over a 16x6 table with symbolic indices, symbolic variable values and 2-call histories.",
          "Trusted: CPython ast/compile/eval, CrossHair 0.0.110 + z3 5.1 models of int/str/list; the whitelist constant frozen in the harness; bounds: list fields <=2 children, identifiers <=8 chars, expression texts limited to the table.", "4 C11"),
